@@ -65,6 +65,7 @@ type Kernel struct {
 	Log       []*scen.Event
 	lastBusy  time.Duration
 	idleFn    func(ev *Event) bool
+	halfNow   time.Duration
 	pairs     map[string]struct{}
 	lastPoint string
 	anon      int
@@ -275,6 +276,12 @@ func (k *Kernel) OnlyIdleParked() bool {
 	return true
 }
 
+// Spun reports whether the second half of the step budget was spent without simulated time passing
+// (a livelock: under the rule that the clock stands still while a goroutine sits at a statement-level
+// yield, a fair schedule that burns steps at one instant is spinning). A run that merely ran out of
+// steps while time was passing is inconclusive, never a violation.
+func (k *Kernel) Spun() bool { return k.step >= k.MaxSteps && k.halfNow > 0 && k.Now() == k.halfNow }
+
 func (k *Kernel) End(reason string) {
 	k.stopRun = true
 	if k.endReason == "" {
@@ -311,6 +318,9 @@ func (k *Kernel) Run(hook func()) string {
 			return "max-sim-time"
 		}
 		k.step++
+		if k.step == k.MaxSteps/2 {
+			k.halfNow = k.Now()
+		}
 		P := k.sortedParked()
 		if len(P) == 0 {
 			k.advance(30 * time.Second)
@@ -339,9 +349,9 @@ func (k *Kernel) Run(hook func()) string {
 				}
 			}
 			total := len(P)*k.ReleaseWeight + advW
-			d := k.tape.Draw(total)
+			d := k.tape.DrawSched(total)
 			if d >= len(P)*k.ReleaseWeight {
-				q := advanceQuanta[k.tape.Draw(len(advanceQuanta))]
+				q := advanceQuanta[k.tape.DrawSched(len(advanceQuanta))]
 				k.logSched("advance", q.String())
 				k.advance(q)
 				continue
